@@ -71,6 +71,7 @@ type Scenario struct {
 	Mode     string  `json:"mode,omitempty"`
 	Extra    string  `json:"extra,omitempty"`
 	Inject   *InjectSpec `json:"inject,omitempty"`
+	Solo     *SoloSpec   `json:"solo,omitempty"`
 }
 
 func (sc *Scenario) partSize() int {
@@ -81,6 +82,9 @@ func (sc *Scenario) partSize() int {
 }
 
 func (sc *Scenario) String() string {
+	if sc.Solo != nil {
+		return fmt.Sprintf("solo node %d script %v", sc.Solo.Node, sc.Solo.Steps)
+	}
 	s := fmt.Sprintf("powers=%v byz=%d heights=%d rules=[", sc.Powers, sc.Byz, sc.Heights)
 	for i, r := range sc.Rules {
 		if i > 0 {
